@@ -493,6 +493,16 @@ func c12Reader(r *eng.Run) {
 	// connection handler would use it.
 	if r.T.Bool(sim.LHist) {
 		fr := wsflate.NewReader(nil, drawDtor(r))
+		if r.T.Bool(sim.LCfg) {
+			// Constructed over the connection's (byte-)reader rather than over
+			// nothing: what kind of source the first one was must not stick.
+			var first io.Reader = NewPipe(r, nil)
+			if r.T.Bool(sim.LCfg) {
+				first = &byteSrc{NewPipe(r, nil)}
+			}
+			fr = wsflate.NewReader(first, drawDtor(r))
+			r.Probe("reader_constructed_over_a_source_then_reset")
+		}
 		for i := 0; i < 3+r.T.Int(sim.LHist, 3); i++ {
 			m := drawFlateMsg(r)
 			if len(m) > 3000 && !r.T.Chance(sim.LLen, 1, 3) {
